@@ -96,6 +96,10 @@ def check_merge(tracks, merged):
         got = [(m.time, ident_of(m)) for m in res]
         if got != merged:
             return 'wrong-result', '%s gave %r expected %r' % (how, got, merged)
+    # the caller owns the results: modifying them must not influence anything else
+    for how, res in outs:
+        for m in res:
+            m.time += 1000
     # inputs untouched
     for t, snap in zip(real, snapshot):
         if len(t) != len(snap):
